@@ -366,8 +366,10 @@ Record env := mkE {
   e_partial : bool;       (* followed by a truncated message *)
   e_eof : bool;           (* END_STREAM received (with HEADERS, with the last DATA, or on an empty DATA) *)
   e_ext : extk;
-  e_ext_at : option nat   (* the event (or, for ENone, the deadline) arrives during this Sleep; otherwise when
+  e_ext_at : option nat;  (* the event (or, for ENone, the deadline) arrives during this Sleep; otherwise when
                              the handler waits *)
+  e_paused0 : bool        (* the transport is paused already when the request arrives (resumed by the environment
+                             once the handler coroutine has ended, or at once when it is never called) *)
 }.
 
 Inductive cause := CReset | CClose | CDeadline.
@@ -518,7 +520,7 @@ Definition after_cancel (p : policy) (c : cause) : endkind :=
   match p with Honour => KCancelled c | Swallow f => KSwallowed c f end.
 
 Definition init_state (e : env) : sstate :=
-  mkS false false false false (if e_eof e then HRemote else HOpen) 0 0 false false.
+  mkS false false false false (if e_eof e then HRemote else HOpen) 0 0 false (e_paused0 e).
 
 (* the handler coroutine: ops, then fin; a cancellation ends the ops *)
 Definition run_handler (t : tclass) (e : env) (p : prog)
